@@ -33,6 +33,67 @@ def params(T, dt, sampling=True, order=2, solver="TJM"):
                            solver=solver, show_progress=False)
 
 
+def mcwf_clock(k, dt, sampling, noisy=False):
+    """One MCWF trajectory with a clock in place of the observable: returns (row, durations): row[c] = number of propagation steps
+    taken before entry c was evaluated, durations = the step lengths handed to the propagator."""
+    import mqt.yaqs.analog.mcwf as M
+    from mqt.yaqs.core.data_structures.simulation_parameters import AnalogSimParams, Observable
+    T = float(k * dt)
+    p = AnalogSimParams([Observable("z", 0)], elapsed_time=T, dt=dt, sample_timesteps=sampling, solver="MCWF", show_progress=False)
+    durations = []
+    class Clock:
+        def __matmul__(self, psi):
+            return psi * (len(durations) / np.vdot(psi, psi).real)
+        def dot(self, psi):
+            return self.__matmul__(psi)
+    psi0 = np.array([1.0, 0.0], dtype=complex)
+    heff = np.array([[0.3, 0.1], [0.1, -0.2]], dtype=complex)
+    jumps = [np.sqrt(0.5) * np.array([[0, 1], [0, 0]], dtype=complex)] if noisy else []
+    if noisy:
+        heff = heff - 0.5j * jumps[0].conj().T @ jumps[0]
+    ctx = M.MCWFContext(psi_initial=psi0, heff=heff, jump_ops=jumps, embedded_observables=[Clock()], sim_params=p)
+    saved = M.expm_arnoldi
+    def prop(op, v, step, *xa, **xk):
+        durations.append(float(step))
+        return saved(op, v, step, *xa, **xk)
+    M.expm_arnoldi = prop
+    try:
+        res = M.mcwf((0, ctx))
+    finally:
+        M.expm_arnoldi = saved
+    return [float(x) for x in np.asarray(res)[0]], durations, [float(t) for t in p.times]
+
+def lindblad_clock(k, dt, sampling):
+    """lindblad() with the integrator replaced by one that returns, at every requested time t, a state whose <Z_0> is t:
+    returns (row, t_span, t_eval)."""
+    import mqt.yaqs.analog.lindblad as Lb
+    from mqt.yaqs.core.data_structures.networks import MPO, MPS
+    from mqt.yaqs.core.data_structures.simulation_parameters import AnalogSimParams, Observable
+    T = float(k * dt)
+    p = AnalogSimParams([Observable("z", 0)], elapsed_time=T, dt=dt, sample_timesteps=sampling, solver="Lindblad", show_progress=False)
+    seen = {}
+    saved = Lb.solve_ivp
+    class Res:
+        success = True
+        message = "clock"
+    def fake(rhs, t_span, y0, t_eval=None, **kw):
+        seen["span"] = tuple(float(x) for x in t_span)
+        te = np.asarray(t_eval if t_eval is not None else [t_span[1]], dtype=float)
+        seen["eval"] = [float(x) for x in te]
+        dim = int(round(np.sqrt(len(y0))))
+        z = np.kron(np.diag([1.0, -1.0]), np.eye(dim // 2))
+        r = Res()
+        r.t = te
+        r.y = np.stack([(t * z / dim).astype(complex).flatten() for t in te], axis=1)
+        return r
+    Lb.solve_ivp = fake
+    try:
+        out = Lb.lindblad((0, MPS(2, state="zeros"), None, p, MPO.ising(2, 1.0, 0.5)))
+    finally:
+        Lb.solve_ivp = saved
+    return [float(x) for x in np.asarray(out)[0]], seen, [float(t) for t in p.times]
+
+
 def regenerate(ctx):
     """coq/Gen/SmallGen.v from the current source of check_if_identity / AnalogSimParams.times / the scheduled-jump tests (fail closed)"""
     translate_small.regenerate()
@@ -79,6 +140,30 @@ def correspond(ctx):
             why = "grid does not advance by dt"
         if why:
             ctx.violation("grid", f"AnalogSimParams(elapsed_time={T!r}, dt={dt!r}): {why}", {"oracle": "grid", "k": k, "dt": dt, "T": T})
+    # the dense back-ends with a clock in place of the observable: which grid point every reported entry is evaluated at
+    ccases, cexprs = [], []
+    for n in range(ctx.scale(60, 800)):
+        k = int(ctx.rng.integers(1, 13)) if n % 7 else int(ctx.rng.integers(13, 120))
+        dt = float(ctx.rng.choice(DTS[:8]))
+        sampling = bool(n % 2)
+        ccases.append(dict(k=k, dt=dt, sampling=sampling, noisy=bool(n % 3 == 0)))
+        cexprs.append(f"(mcwf_cols {g_bool(sampling)} {k + 1}, lindblad_cols {g_bool(sampling)} {k + 1})")
+    vals = common.coq_eval_sharded("From Coq Require Import List. Import ListNotations.\nFrom Yaqs Require Import Model.SolverClock.", cexprs, tag="c15c")
+    for c, (mm, ml) in zip(ccases, vals):
+        row, durations, times = mcwf_clock(c["k"], c["dt"], c["sampling"], noisy=c["noisy"])
+        ctx.case(nontrivial_key=("clock", c["k"], c["dt"], c["sampling"], c["noisy"]), validated=True,
+                 sample={**c, "mcwf_entry_steps": row} if c["k"] == 3 else None)
+        ctx.count("clock_sampling" if c["sampling"] else "clock_final_only")
+        impl = [(j, int(round(x))) for j, x in enumerate(row)]
+        if impl != [tuple(x) for x in mm] or any(d != c["dt"] for d in durations) or len(durations) != c["k"]:
+            ctx.mismatch("mcwf entries (column, steps of dt taken before it) and step lengths vs SolverClock.mcwf_cols", c,
+                         {"entries": impl, "step_lengths": sorted(set(durations)), "steps": len(durations)}, [list(x) for x in mm], key="mcwf-clock")
+        lrow, seen, ltimes = lindblad_clock(c["k"], c["dt"], c["sampling"])
+        limpl = [(j, ltimes.index(x) if x in ltimes else None) for j, x in enumerate(lrow)]
+        ok_span = seen["span"][0] == 0.0 and ltimes[-1] <= seen["span"][1] <= ltimes[-1] + 1e-6 * max(1.0, ltimes[-1])
+        if limpl != [tuple(x) for x in ml] or not ok_span:
+            ctx.mismatch("lindblad entries (column, index of the grid time it is evaluated at) and integration span vs SolverClock.lindblad_cols", c,
+                         {"entries": limpl, "span": seen["span"]}, [list(x) for x in ml], key="lindblad-clock")
     # result columns as words
     wcases, wexprs, wimpl = [], [], []
     for n in range(ctx.scale(40, 600)):
@@ -113,7 +198,7 @@ def solver_oracle(args):
     from mqt.yaqs.core.data_structures.simulation_parameters import AnalogSimParams, Observable
 
     k, dt, solver, order, sampling = args["k"], args["dt"], args["solver"], args["order"], args["sampling"]
-    L = 2
+    L = args.get("L", 2)
     T = float(k * dt)
     obs = [Observable("x", 0), Observable("z", 1)]
     try:
@@ -128,7 +213,7 @@ def solver_oracle(args):
     except Exception as e:  # noqa: BLE001
         return f"simulator.run raised {type(e).__name__}: {e}"
     h = dense.ising(L, 1.0, 0.8)
-    v0 = dense.basis_state([0, 0])
+    v0 = dense.basis_state([0] * L)
     ops = [dense.op_on(L, {0: dense.X}), dense.op_on(L, {1: dense.Z})]
     want_len = k + 1 if sampling else 1
     for o, op in zip(obs, ops):
@@ -184,6 +269,10 @@ def search(ctx):
             for (k, dt) in ((2, 0.1), (1, 0.1), (3, 0.1), (5, 0.05)):
                 plan.append(dict(k=k, dt=dt, solver=solver, order=order, sampling=sampling))
             plan.append(dict(k=3, dt=0.1, solver=solver, order=order, sampling=sampling, reuse=True))
+    # long horizons on larger registers (dense back-end): many grid points, a Hilbert space larger than any Krylov space
+    for (L, k, dt, sampling) in ((7, 60, 0.1, False), (8, 40, 0.25, False), (6, 50, 0.2, True)):
+        plan.append(dict(k=k, dt=dt, solver="MCWF", order=1, sampling=sampling, L=L))
+    plan.append(dict(k=40, dt=0.25, solver="Lindblad", order=1, sampling=False, L=4))
     if not ctx.quick:
         for _ in range(60):
             plan.append(dict(k=int(ctx.rng.integers(1, 12)), dt=float(ctx.rng.choice([0.1, 0.05, 0.02, 0.07])),
@@ -196,7 +285,7 @@ def search(ctx):
         except common.HardTimeout:
             ctx.notes.append(f"solver oracle timed out {a}")
             continue
-        ctx.case(nontrivial_key=("solver", a["solver"], a["order"], a["sampling"], a["k"], a["dt"]))
+        ctx.case(nontrivial_key=("solver", a["solver"], a["order"], a["sampling"], a["k"], a["dt"], a.get("L", 2)))
         ctx.count("solver_" + a["solver"])
         if why:
             key = "solver:" + a["solver"] + (":final" if not a["sampling"] else "")
